@@ -5,7 +5,7 @@ import collections
 import itertools
 import os
 
-from mc import core, e2, fsshim, seams, tf, world
+from mc import core, e2, envrun, fsshim, seams, tf, world
 from mc.ref import bencode, model
 
 P0 = 16384
@@ -373,6 +373,41 @@ def overlap_requests(raw, route):
 # program that set the `torrentfile` logger (or the root logger) to DEBUG
 DEBUG_VARIANTS = {"lib": ["debug", "rootdebug", "reuse"], "cli": ["v"]}
 
+# library surface: the sub-command handler commands.edit called DIRECTLY by a
+# host program with an argparse.Namespace it built itself.  The attributes are
+# the parser's: metafile, announce, url_list, httpseeds, comment, source,
+# private (a store_true flag: True | False, where False means "not named").
+# The list fields take what edit_torrent documents - a string of
+# whitespace-separated URLs, a list, "" to clear, None when unnamed - and, in
+# the `ns-tuple` variant, the list values as TUPLES (what other front ends
+# deliver for a repeated option; outside the statement's "string or list", so
+# judged weakly, see EditBFS.judge_variant).
+NS_VARIANTS = ["ns", "ns-tuple"]
+NS_ATTR = {"announce": "announce", "url-list": "url_list",
+           "httpseeds": "httpseeds", "comment": "comment", "source": "source",
+           "private": "private"}
+
+
+def ns_applicable(req, variant):
+    """Is the request inside the Namespace route's alphabet?"""
+    for f, v in req:
+        if f == "private" and v is not True:
+            return False        # the flag cannot clear
+    if variant == "ns-tuple":
+        return any(isinstance(v, list) for _, v in req)
+    return True
+
+
+def namespace_for(path, req, variant):
+    from argparse import Namespace
+    kw = {a: None for a in NS_ATTR.values()}
+    kw["private"] = False
+    for f, v in req:
+        if isinstance(v, list):
+            v = tuple(v) if variant == "ns-tuple" else list(v)
+        kw[NS_ATTR[f]] = v
+    return Namespace(metafile=path, **kw)
+
 
 def apply_request(route, path, req, variant=None):
     if route == "lib":
@@ -382,6 +417,9 @@ def apply_request(route, path, req, variant=None):
         with tf.quiet():
             if variant is None:
                 tf.edit.edit_torrent(path, args)
+                return
+            if variant in NS_VARIANTS:
+                tf.commands.edit(namespace_for(path, req, variant))
                 return
             if variant == "reuse":
                 # the host keeps one request dictionary and applies it to
@@ -541,6 +579,137 @@ def canonical_problems(raw):
     return structure_problems(top), top
 
 
+# ------------------------------------------- process-environment axis (C06)
+# A small sub-catalogue of creates and edits, each executed in a child
+# interpreter under EVERY member of envrun.ENVS (python -O / PYTHONOPTIMIZE,
+# terminal widths, ASCII / POSIX locale, stdout closed / full / a file,
+# removed cwd, -W error, debug switch, low recursion limit, few descriptors,
+# umasks, no HOME, far time zone, small io buffer).  The child only runs the
+# operation; what is judged is the file the PARENT then finds at the path.
+
+ENV_MASK_OPTS = ["announce", "url_list", "httpseeds", "comment+source",
+                 "private"]
+CLI_OPT_FLAG = {"announce": "-a", "url_list": "--web-seed",
+                "httpseeds": "--http-seed"}
+
+
+def mask_kwargs(mask):
+    kw = {}
+    for i, o in enumerate(ENV_MASK_OPTS):
+        if mask >> i & 1:
+            if o == "comment+source":
+                kw["comment"], kw["source"] = "c", "s"
+            elif o == "private":
+                kw["private"] = True
+            else:
+                kw[o] = list(OPTS_ALL[o])
+    return kw
+
+
+ENV_CREATOR_EXPR = {
+    "TorrentFile": "torrent.TorrentFile(",
+    "TorrentFileV2": "torrent.TorrentFileV2(",
+    "TorrentFileHybrid": "torrent.TorrentFileHybrid(",
+    "Assembler2": "torrent.TorrentAssembler(meta_version='2', ",
+    "Assembler3": "torrent.TorrentAssembler(meta_version='3', ",
+}
+
+
+def env_ops(family):
+    """The operations of one family of the environment axis."""
+    ops = []
+    if family == "lib-create":
+        for c in ENV_CREATOR_EXPR:
+            for mask in (0, 31):
+                ops.append({"op": "lib-create", "creator": c, "mask": mask,
+                            "world": "D3"})
+        for c in ("TorrentFile", "Assembler3"):
+            ops.append({"op": "lib-create", "creator": c, "mask": 21,
+                        "world": "S1"})
+            # valid UTF-8 names that an ASCII filesystem encoding cannot
+            # decode (they reach the code as surrogate escapes there)
+            ops.append({"op": "lib-create", "creator": c, "mask": 0,
+                        "world": "D3u"})
+    elif family == "cli-create":
+        for ver in ("1", "2", "3"):
+            ops.append({"op": "cli-create", "version": ver, "mask": 31,
+                        "world": "D3"})
+        ops.append({"op": "cli-create", "version": "3", "mask": 0,
+                    "world": "S1"})
+    elif family == "edit":
+        ops = [
+            {"op": "edit", "route": "lib", "base": ["hy", "bare"],
+             "request": [["comment", "c1"]]},
+            {"op": "edit", "route": "lib", "base": ["hy", "full"],
+             "request": [["announce", "http://u1/a http://u2/a"]]},
+            {"op": "edit", "route": "lib", "base": ["v1", "full"],
+             "request": [["source", ""]]},
+            {"op": "edit", "route": "cli", "base": ["v2", "bare"],
+             "request": [["comment", "c2 twö wörds 日"],
+                         ["private", True]]},
+            {"op": "edit", "route": "cli", "base": ["hy", "full"],
+             "request": [["url-list", ["http://w1/", "http://w2/"]]]},
+        ]
+    return ops
+
+
+ENV_FAMILIES = ["lib-create", "cli-create", "edit"]
+
+
+def env_world(op, seed):
+    if op["world"] == "D3":
+        return base_world(seed)["unsorted"]
+    if op["world"] == "S1":
+        return {"shape": "S1", "sizes": [2 * P0 + 7], "cids": [0]}
+    return {"shape": op["world"], "sizes": [2 * P0 + 1, 7, P0 + 5],
+            "cids": [0, 1, 2]}
+
+
+def env_body(op, root, out):
+    """Python source of the operation (run in the child by envrun)."""
+    if op["op"] == "lib-create":
+        return (
+            "from torrentfile import torrent\n"
+            f"t = {ENV_CREATOR_EXPR[op['creator']]}path={root!a}, "
+            f"piece_length={P0}, outfile={out!a}, progress=0, "
+            f"**{mask_kwargs(op['mask'])!a})\n"
+            "OBS = 'assembled'\n"
+            "t.write()\n"
+            "OBS = 'written'\n")
+    if op["op"] == "cli-create":
+        argv = ["create", root, "-o", out, "--meta-version", op["version"],
+                "--piece-length", str(P0)]
+        kw = mask_kwargs(op["mask"])
+        for k, v in kw.items():
+            if k in CLI_OPT_FLAG:
+                argv += [CLI_OPT_FLAG[k]] + v
+            elif k == "private":
+                argv.append("--private")
+            else:
+                argv += ["--" + k, v]
+        return ("from torrentfile.cli import execute\n"
+                f"execute({argv!a})\n"
+                "OBS = 'returned'\n")
+    req = [(f, v) for f, v in op["request"]]
+    if op["route"] == "lib":
+        args = {f: None for f in FIELDS}
+        args.update(dict(req))
+        return ("from torrentfile.edit import edit_torrent\n"
+                f"edit_torrent({out!a}, {args!a})\n"
+                "OBS = 'returned'\n")
+    argv = ["edit", out]
+    for f, v in req:
+        if f == "private":
+            argv.append("--private")
+        elif isinstance(v, list):
+            argv += [CLI_FLAG[f]] + list(v)
+        else:
+            argv += [CLI_FLAG[f], v]
+    return ("from torrentfile.cli import execute\n"
+            f"execute({argv!a})\n"
+            "OBS = 'returned'\n")
+
+
 # ------------------------------------------------------------------- checks
 
 
@@ -593,6 +762,19 @@ class EditBFS:
             "32 and 64 KiB",
             "a string for a list field means its whitespace-separated items; "
             "clearing the tracker only requires `announce` to disappear",
+            "Namespace probes (library surface): every depth-1 transition of "
+            "every base of the library route (thorough: every transition from "
+            "the depth-1 states as well) is also driven through "
+            "torrentfile.commands.edit called directly with a hand-built "
+            "argparse.Namespace (metafile, announce, url_list, httpseeds, "
+            "comment, source, private): list fields as a whitespace-separated "
+            "string, as a list, as '' (clear), None when unnamed; private is "
+            "the parser's flag (True, or False = unnamed; it cannot clear); "
+            "judged by the same transition oracle.  Variant `ns-tuple` hands "
+            "the list values over as tuples: outside the statement's 'string "
+            "or list', so a tuple-valued field may be taken as its items, "
+            "left unedited, or refused with the file untouched - everything "
+            "else is judged as always",
         ]
         self.rule = (
             "BFS over edit histories: bases (version x option set) x route "
@@ -602,7 +784,34 @@ class EditBFS:
             "with the reference edit model; plus non-expanding probes: "
             "state-derived overlap values (depth <= 1 quick, every state "
             "thorough) and the depth-1 transitions under effective debug "
-            "logging (cli -v | torrentfile logger | root logger at DEBUG)")
+            "logging (cli -v | torrentfile logger | root logger at DEBUG) "
+            "and through commands.edit(Namespace) with string | list | tuple "
+            "| '' | None values")
+        if pid == "C06":
+            self.assumptions.append(
+                "C06 process-environment axis: a sub-catalogue of operations (5 "
+                "creator classes x {no option, every option over an existing "
+                "longer file} on the directory payload with unsorted pieces "
+                "roots, a single-file payload, a payload with non-ASCII names; "
+                "CLI create for meta versions 1/2/3; three library and two CLI "
+                "edits) x EVERY member of mc.envrun.ENVS (python -O, "
+                "PYTHONOPTIMIZE=2, COLUMNS 30/12/200, ASCII filesystem encoding "
+                "/ locale, POSIX locale, stdout closed / /dev/full / a file / "
+                "ascii-only, removed working directory, -W error, "
+                "TORRENTFILE_DEBUG=ON, recursion limit 120, RLIMIT_NOFILE 64, "
+                "umask 077 / 000, no HOME, a far time zone, a 512-byte io "
+                "buffer), one child interpreter per pair; judged on the file the "
+                "parent finds at the path afterwards: it strict-decodes "
+                "(canonical + structure).  An operation that refuses (raises, "
+                "exits, the child dies) is no violation by itself - C06 speaks "
+                "about the metafiles that ARE written - provided the path is then "
+                "absent, empty, still holds what it held before, or holds a "
+                "canonical metafile; only in the `default` environment a refusal "
+                "is reported (as the in-process sweeps do)")
+            self.rule += (
+                "; plus (operation sub-catalogue) x (every process "
+                "environment of mc.envrun.ENVS), each pair in its own child "
+                "interpreter, the written file judged by the strict decoder")
 
     def groups(self, tier, seed):
         gs = []
@@ -622,6 +831,12 @@ class EditBFS:
                 for order in ("native", "reversed", "sorted"):
                     gs.append({"kind": "create", "creator": ver,
                                "order": order, "seed": seed, "tier": tier})
+            # process-environment axis: every member of envrun.ENVS x the
+            # sub-catalogue of creates and edits (one child per pair)
+            for envname in envrun.ENVS:
+                for family in ENV_FAMILIES:
+                    gs.append({"kind": "env", "env": envname,
+                               "family": family, "seed": seed, "tier": tier})
         if self.id == "C07":
             gs.append({"kind": "cli-orders", "seed": seed, "tier": tier})
             gs.append({"kind": "spellings", "seed": seed, "tier": tier})
@@ -689,6 +904,33 @@ class EditBFS:
             if before_raw[s:e] != after_raw[s2:e2]:
                 probs.append(("info-bytes-changed-by-tracker-only-edit", None))
         return model._dedup(probs)
+
+    @staticmethod
+    def untouched(path, raw):
+        try:
+            with open(path, "rb") as f:
+                return f.read() == raw
+        except OSError:
+            return False
+
+    def judge_variant(self, before_raw, after_raw, req, variant):
+        """judge_transition, except that in the `ns-tuple` variant a field
+        whose value was handed over as a TUPLE may have been taken as the list
+        of its items or not taken at all (the statement quantifies over
+        "string or list"; the unmodified code ignores a tuple): the result
+        must be right for the request with some subset of the tuple-valued
+        fields left out.  Everything else - every unnamed key, the info
+        bytes, the other named fields - is judged as always."""
+        probs = self.judge_transition(before_raw, after_raw, req)
+        if variant != "ns-tuple" or not probs:
+            return probs
+        tup = [i for i, (_, v) in enumerate(req) if isinstance(v, list)]
+        for n in range(1, len(tup) + 1):
+            for drop in itertools.combinations(tup, n):
+                alt = tuple(r for i, r in enumerate(req) if i not in drop)
+                if not self.judge_transition(before_raw, after_raw, alt):
+                    return []
+        return probs
 
     def run_spellings(self, g):
         """The metafile named through different spellings of its path: the
@@ -842,6 +1084,8 @@ class EditBFS:
     def run_group(self, g):
         if g["kind"] == "create":
             return self.run_create(g)
+        if g["kind"] == "env":
+            return self.run_env(g)
         if g["kind"] == "length":
             return self.run_length(g)
         if g["kind"] == "spellings":
@@ -896,6 +1140,14 @@ class EditBFS:
                 for variant in DEBUG_VARIANTS[route]:
                     todo += [(req, variant, False) for req in reqs]
                     res.extra["debug_logging_probes"] += len(reqs)
+            if not hist or (thorough and len(hist) <= 1):
+                # ... and through commands.edit called directly with a
+                # hand-built Namespace (string / list / tuple / "" / None);
+                # thorough: from every depth-1 state as well
+                for variant in (NS_VARIANTS if route == "lib" else ()):
+                    nsreqs = [r for r in reqs if ns_applicable(r, variant)]
+                    todo += [(req, variant, False) for req in nsreqs]
+                    res.extra["namespace_probes"] += len(nsreqs)
             for req, variant, expand in todo:
                 with open(state_file, "wb") as f:
                     f.write(raw)
@@ -907,6 +1159,15 @@ class EditBFS:
                 except Exception as e:  # noqa
                     err = type(e).__name__
                     after = None
+                    if variant == "ns-tuple" and self.untouched(state_file,
+                                                                raw):
+                        # a tuple is outside "string or list": refusing it
+                        # and leaving the file alone is fine
+                        res.transitions += 1
+                        res.evals += 1
+                        res.validated += 1
+                        res.outcomes["ns-tuple-refused:" + err] += 1
+                        continue
                 res.transitions += 1
                 res.evals += 1
                 case = {"base": list(base), "route": route, "seed": seed,
@@ -924,7 +1185,7 @@ class EditBFS:
                     continue
                 res.validated += 1
                 if self.id == "C07":
-                    probs = self.judge_transition(raw, after, req)
+                    probs = self.judge_variant(raw, after, req, variant)
                     for p, d in probs:
                         res.violation(
                             f"C07|{rlabel}|{p}|{base[0]}-{base[1]}|{fields}",
@@ -1098,9 +1359,102 @@ class EditBFS:
                     res.sample(case)
         return res
 
+    def env_one(self, envname, op, seed):
+        """One operation of the environment axis in one environment ->
+        (outcome label, problems, detail).  The child only runs the
+        operation; the verdict is computed here, on what the path holds
+        after the child has gone."""
+        sb = world.fresh_dir("c6e_")
+        mask = op.get("mask", 0)
+        junk = False
+        if op["op"] == "edit":
+            target = os.path.join(sb, "m.torrent")
+            raw0 = make_base(tuple(op["base"]), seed, sb)
+            with open(target, "wb") as f:
+                f.write(raw0)
+            root = None
+        else:
+            files = world.files_of(env_world(op, seed), seed)
+            root = world.materialize(files, sb)
+            target = os.path.join(sb, "o.torrent")
+            junk = mask % 2 == 1 or mask >= 16
+            if junk:
+                with open(target, "wb") as f:
+                    f.write(self.JUNK)
+        rep = envrun.run(envname, env_body(op, root, target))
+        if rep["ok"]:
+            how = "ok"
+        elif rep["report"]:
+            how = "refused:" + str(rep["exc"])
+        else:
+            how = "died:rc=%s" % rep["rc"]
+            if envname == "default":
+                # the harness cannot run children at all: machinery, not a
+                # verdict about the code
+                raise core.InfraError(
+                    "environment axis: the child of the default environment "
+                    "died without reporting: " + (rep.get("err") or "")[-300:])
+        detail ={"env": envname, "how": how, "msg": rep.get("msg"),
+                  "stderr": (rep.get("err") or "")[-300:]}
+        probs = []
+        if not os.path.lexists(target):
+            wrote = "no-file"
+        else:
+            with open(target, "rb") as f:
+                data = f.read()
+            if op["op"] != "edit" and not rep["ok"]:
+                # a create that refused (or died): nothing, an empty file or
+                # what was there before is "no metafile written"
+                probs = self.left_behind(target, mask)
+                wrote = "left:" + (probs[0] if probs else (
+                    "previous" if junk and data == self.JUNK else
+                    "empty" if not data else "canonical"))
+            else:
+                cp, _ = canonical_problems(data)
+                probs = list(cp) if rep["ok"] else [
+                    "refused-but-wrote:" + p for p in cp]
+                wrote = cp[0] if cp else (
+                    "unchanged" if op["op"] == "edit" and data == raw0
+                    else "canonical")
+        if envname == "default" and not rep["ok"]:
+            # the baseline must work: the in-process sweeps treat a create
+            # or an edit that raises on these inputs as a violation too
+            probs.append("refused-in-default-environment:" + how)
+        return how + "/" + wrote, probs, detail
+
+    def run_env(self, g):
+        """C06 process-environment axis: one family of operations under one
+        member of envrun.ENVS.  Oracle: whatever the path holds afterwards
+        strict-decodes (canonical + structure); a refusal (exception, exit,
+        death of the child) is fine as long as it left no non-canonical
+        file behind."""
+        res = core.Result()
+        seed, envname = g["seed"], g["env"]
+        for op in env_ops(g["family"]):
+            label, probs, detail = self.env_one(envname, op, seed)
+            res.transitions += 1
+            res.evals += 1
+            res.states += 1
+            res.validated += 1
+            res.extra["environment_children"] += 1
+            if not label.startswith("ok/"):
+                res.extra["environment_refusals"] += 1
+            res.outcomes["env:" + label.replace("refused-but-wrote:", "")] += 1
+            case = {"kind": "env", "env": envname, "op": op, "seed": seed}
+            what = op["op"] + ":" + (op.get("creator") or op.get("version")
+                                     or op.get("route"))
+            for p in probs:
+                res.violation(f"C06|env|{what}|{p}|{envname}", case, detail)
+            res.sample(case)
+        return res
+
     def replay(self, case):
         out = []
         seed = case["seed"]
+        if case.get("kind") == "env":
+            _, probs, detail = self.env_one(case["env"], case["op"], seed)
+            return [{"sig": f"C06|env|{p}|{case['env']}", "detail": detail}
+                    for p in probs]
         if case.get("kind") == "create":
             files = world.files_of(case["world"], seed)
             parent = world.fresh_dir()
@@ -1183,12 +1537,16 @@ class EditBFS:
         try:
             apply_request(route, state_file, req, case.get("variant"))
         except Exception as e:  # noqa
+            if case.get("variant") == "ns-tuple" and self.untouched(
+                    state_file, before):
+                return []
             return [{"sig": f"{self.id}|edit-raised", "detail": repr(e)}]
         with open(state_file, "rb") as f:
             after = f.read()
         rlabel = route + ("-" + case["variant"] if case.get("variant") else "")
         if self.id == "C07":
-            for p, d in self.judge_transition(before, after, req):
+            for p, d in self.judge_variant(before, after, req,
+                                           case.get("variant")):
                 out.append({"sig": f"C07|{rlabel}|{p}", "detail": d})
         else:
             cp, _ = canonical_problems(after)
@@ -1216,6 +1574,21 @@ C17_REQUESTS = [
     ("unenc-bool", {"comment": True}),
     ("unenc-bool-in-list", {"url-list": ["http://ok/", False]}),
 ]
+
+
+# library surface: the metafile named by a path that is not a str - bytes
+# (os.fsencode, what a host gets from os.listdir(b".")) and pathlib.Path.
+# pyben.load, which the edit reads with, takes both.
+PATH_TYPE_BASES = ("bare-bytespath", "bare-pathlib")
+
+
+def path_argument(path, variant):
+    if variant == "bytespath":
+        return os.fsencode(path)
+    if variant == "pathlib":
+        import pathlib
+        return pathlib.Path(path)
+    return path
 
 
 def whole_document(new, raw0):
@@ -1246,6 +1619,11 @@ class EditFaults:
             "one base has a symbolic link as the metafile path (judged on the "
             "bytes reachable through the path); three more have unusual file "
             "metadata (owned by another uid, mode 0444, a second hard link)",
+            "path types (library route): the metafile is also named by a "
+            "bytes path (os.fsencode) and by a pathlib.Path, every request "
+            "under the same fault exploration and the same oracle; an edit "
+            "that refuses such a path (TypeError) and leaves the file alone "
+            "satisfies it",
             "seam completeness: an audit hook must find every mutating OS "
             "event of a fault-free run accounted for by the shim (else exit 2)",
         ]
@@ -1265,7 +1643,8 @@ class EditFaults:
         for ver in ("v1", "v2", "hy"):
             for opts in ("bare", "full", "bare-symlink", "bare-otheruid",
                          "bare-readonly", "bare-hardlink", "bare-name255",
-                         "bare-name250", "bare-tmpsibling", "big", "huge"):
+                         "bare-name250", "bare-tmpsibling", "bare-bytespath",
+                         "bare-pathlib", "big", "huge"):
                 if opts.startswith("bare-") and ver != "hy":
                     continue
                 if opts == "bare-otheruid" and os.geteuid() != 0:
@@ -1273,8 +1652,11 @@ class EditFaults:
                 if opts in ("big", "huge") and ver != "v1":
                     continue
                 for name, _ in C17_REQUESTS:
+                    # (the command line always hands the path over as a str)
                     for route in ("lib",) + (("cli",) if not
-                                             name.startswith("unenc") else ()):
+                                             name.startswith("unenc") and
+                                             opts not in PATH_TYPE_BASES
+                                             else ()):
                         gs.append({"base": [ver, opts], "req": name,
                                    "route": route, "seed": seed, "tier": tier,
                                    "ks": "sample",
@@ -1328,7 +1710,8 @@ class EditFaults:
             try:
                 with shim:
                     if route == "lib":
-                        tf.edit.edit_torrent(path, args)
+                        tf.edit.edit_torrent(path_argument(path, variant),
+                                             args)
                     else:
                         argv = ["edit", path]
                         for f, v in args.items():
